@@ -134,6 +134,9 @@ pub fn classes_of(o: &Outcome) -> Vec<&'static str> {
     add(o.any_reliable, "reliable_reader");
     add(o.any_best_effort, "best_effort_reader");
     add(f.heal_rounds > 10, "heal_rounds>10");
+    add(f.heal_rounds > 50, "heal_rounds>50");
+    add(o.deliveries > 2_000, "deliveries>2000");
+    add(o.deliveries > 10_000, "deliveries>10000");
     add(!(f.data_drop || f.data_dup || f.data_reorder), "no_data_fault");
     c
 }
@@ -161,7 +164,7 @@ pub fn enumerate(prop: &str, tp: &Template, stats: &mut Stats, known: &Known, fa
     let mut mult = vec![0u8; n];
     let mut seq: Vec<u16> = vec![];
     for target in 0..=tp.max_len {
-        dfs(target, n, tp.max_mult, &mut mult, &mut seq, &mut |s: &[u16]| {
+        let completed = dfs(target, n, tp.max_mult, &mut mult, &mut seq, &mut |s: &[u16]| {
             sc.tape.truncate(prefix_len);
             sc.tape.extend(s.iter().map(|i| Ev::Redeliver(*i)));
             let out = if inject { model::run_with(&sc, Some((&log, published, prefix_len))) } else { model::run(&sc) };
@@ -200,7 +203,7 @@ pub fn enumerate(prop: &str, tp: &Template, stats: &mut Stats, known: &Known, fa
                             shrunk_to: Some(size),
                         });
                     }
-                    if failing > 2000 {
+                    if failing >= 20 {
                         return false;
                     }
                 }
@@ -210,6 +213,11 @@ pub fn enumerate(prop: &str, tp: &Template, stats: &mut Stats, known: &Known, fa
             }
             true
         });
+        if !completed {
+            // enough failing schedules of this template: the verdicts are recorded, the rest would only cost time
+            stats.class("exhaustive_template_cut_short_after_20_failures");
+            break;
+        }
     }
     stats.nontrivial_by_construction += nontrivial;
     count
